@@ -14,7 +14,7 @@
      (5 ms)     delay              (6 trig t) trigger pulse on pin trig, HIGH edge at clock t (us)
      (7 echo r) pulseIn result     (8 (n d))  Serial line, distance n/d                      *)
 From Coq Require Import ZArith QArith List Bool.
-From RV Require Import Base.Wire Base.NumC Device.DButton Device.DPot Device.DUltra Host.ButtonHist.
+From RV Require Import Base.Wire Base.NumC Device.DButton Device.DPot Device.DUltra Host.ButtonHist Device.DRebind.
 Import ListNotations.
 Open Scope Z_scope.
 
@@ -25,7 +25,10 @@ Definition nth_rep (l : list Z) (d : Z) (k : nat) : Z :=
 Definition zbool (z : Z) : bool := negb (z =? 0).
 Definition boolz (b : bool) : Z := if b then 1 else 0.
 
-Record bdesc := { bd_pin : Z; bd_place : place; bd_h : option nat; bd_samples : list Z }.
+(* bd_pin / bd_h / bd_samples: the pin the poll of loop() reads, its handler, the scripted levels of that pin;
+   bd_spin / bd_ssamples: the pin on which setup() takes the start-up sample, and its scripted levels - the same pin unless the
+   name was declared more than once with different pins (Device/DRebind.v: poll = last declaration, start-up sample = first) *)
+Record bdesc := { bd_pin : Z; bd_place : place; bd_h : option nat; bd_samples : list Z; bd_spin : Z; bd_ssamples : list Z }.
 Record pdesc := { pd_pin : Z; pd_values : list Z }.
 Record udesc := { ud_trig : Z; ud_echo : Z; ud_echoes : list Z }.
 
@@ -68,9 +71,10 @@ Fixpoint set_nth {A} (n : nat) (x : A) (l : list A) : list A :=
 Definition ev (l : list Z) : wv := WL (map WI l).
 Definition bad_ev : wv := ev [99].
 
-(* the digitalRead index of pass k: the setup sample comes first, for either declaration place *)
+(* the digitalRead index of pass k on the polled pin: the setup sample comes first (for either declaration place) when it was
+   taken on that pin *)
 Definition sample_of (bd : bdesc) (k : nat) : bool :=
-  zbool (nth_rep (bd_samples bd) 0 (match bd_place bd with BeforeLoop => S k | LoopTop => S k end)).
+  zbool (nth_rep (bd_samples bd) 0 (if bd_spin bd =? bd_pin bd then S k else k)).
 
 Definition enc_bev (pin idx : Z) (e : bev) : wv :=
   match e with
@@ -81,8 +85,8 @@ Definition enc_bev (pin idx : Z) (e : bev) : wv :=
   end.
 
 Definition setup_one (bd : bdesc) : bstate * list wv :=
-  let r := b_setup (bd_place bd) (zbool (nth_rep (bd_samples bd) 0 0)) in
-  (fst r, map (enc_bev (bd_pin bd) 0) (snd r)).
+  let r := b_setup (bd_place bd) (zbool (nth_rep (bd_ssamples bd) 0 0)) in
+  (fst r, map (enc_bev (bd_spin bd) 0) (snd r)).
 
 Fixpoint poll_all (k : nat) (bds : list bdesc) (sts : list bstate) (idx : Z) : list bstate * list wv :=
   match bds, sts with
@@ -453,27 +457,65 @@ Fixpoint all_some {A} (l : list (option A)) : option (list A) :=
 Definition un_list {A} (f : wv -> option A) (v : wv) : option (list A) :=
   match v with WL l => all_some (map f l) | _ => None end.
 
-Definition un_bdesc (v : wv) : option bdesc :=
+(* one declaration of a button: (pin place h samples-of-that-pin) *)
+Record bdecl_w := { bw_pin : Z; bw_place : place; bw_h : option nat; bw_samples : list Z }.
+
+Definition un_bdecl (v : wv) : option bdecl_w :=
   match v with
   | WL [WI pin; WI pl; WI h; s] =>
       match un_text s with
-      | Some ss => Some {| bd_pin := pin; bd_place := if pl =? 0 then BeforeLoop else LoopTop;
-                           bd_h := if h <? 0 then None else Some (Z.to_nat h); bd_samples := ss |}
+      | Some ss => Some {| bw_pin := pin; bw_place := if pl =? 0 then BeforeLoop else LoopTop;
+                           bw_h := if h <? 0 then None else Some (Z.to_nat h); bw_samples := ss |}
       | None => None
       end
   | _ => None
   end.
 
-Definition un_pdesc (v : wv) : option pdesc :=
+(* a button NAME with all its declarations in text order (those before the loop, then those at the loop top): the firmware has
+   one poll per name - pin, handler of the LAST declaration ([after], the binding the text leaves = Python's while loop() runs) -
+   and one start-up sample, emitted where the FIRST declaration stands, on its pin ([first_of]) *)
+Definition resolve_button (ds : list bdecl_w) : option bdesc :=
+  match first_of (map IDecl ds), after (map IDecl ds) None with
+  | Some f, Some l => Some {| bd_pin := bw_pin l; bd_place := bw_place f; bd_h := bw_h l; bd_samples := bw_samples l;
+                              bd_spin := bw_pin f; bd_ssamples := bw_samples f |}
+  | _, _ => None
+  end.
+
+(* (pin place h samples): a name declared once;  ((pin place h samples) ...): a name with several declarations *)
+Definition un_bdesc (v : wv) : option bdesc :=
+  match v with
+  | WL (WI _ :: _) => match un_bdecl v with Some d => resolve_button [d] | None => None end
+  | WL (WL _ :: _) => match un_list un_bdecl v with Some ds => resolve_button ds | None => None end
+  | _ => None
+  end.
+
+Definition un_pdecl (v : wv) : option pdesc :=
   match v with
   | WL [WI pin; s] => match un_text s with Some ss => Some {| pd_pin := pin; pd_values := ss |} | None => None end
   | _ => None
   end.
 
-Definition un_udesc (v : wv) : option udesc :=
+(* a potentiometer name declared several times, every declaration above the loop body's statements (before the loop / at the loop
+   top): read() in the loop body is analogRead of the pin of the declaration written last above it - [after] *)
+Definition un_pdesc (v : wv) : option pdesc :=
+  match v with
+  | WL (WI _ :: _) => un_pdecl v
+  | WL (WL _ :: _) => match un_list un_pdecl v with Some ds => after (map IDecl ds) None | None => None end
+  | _ => None
+  end.
+
+Definition un_udecl (v : wv) : option udesc :=
   match v with
   | WL [WI t; WI e; s] =>
       match un_text s with Some ss => Some {| ud_trig := t; ud_echo := e; ud_echoes := ss |} | None => None end
+  | _ => None
+  end.
+
+(* an ultrasonic name declared several times: one helper per name, built from the last declaration *)
+Definition un_udesc (v : wv) : option udesc :=
+  match v with
+  | WL (WI _ :: _) => un_udecl v
+  | WL (WL _ :: _) => match un_list un_udecl v with Some ds => after (map IDecl ds) None | None => None end
   | _ => None
   end.
 
@@ -508,6 +550,27 @@ Definition un_hop (v : wv) : option hop :=
   | _ => None
   end.
 
+(* case 4: (4 N setup-items loop-items) - the places where one sensor name occurs (Device/DRebind.v); item (0 key) declaration
+   (key: a number for the pin(s) it names), (1) a call written here, (2 f) def of a function making the call, (3 f) a call of f
+   -> (0 python lexical last first-declaration lex_ok last_ok last_ok_loop); a run = (keys-of-the-calls-before-the-loop
+   (keys-of-pass-0 ...)), key -1: nothing bound *)
+Definition un_item (v : wv) : option (item Z) :=
+  match v with
+  | WL [WI 0; WI d] => Some (IDecl d)
+  | WL [WI 1] => Some IUse
+  | WL [WI 2; f] => match un_nat f with Some f' => Some (IDef f') | None => None end
+  | WL [WI 3; f] => match un_nat f with Some f' => Some (ICall f') | None => None end
+  | _ => None
+  end.
+
+Definition w_key (o : option Z) : wv := match o with Some d => WI d | None => WI (-1) end.
+Definition w_brun (r : list (option Z) * list (list (option Z))) : wv :=
+  WL [WL (map w_key (fst r)); WL (map (fun p => WL (map w_key p)) (snd r))].
+
+Definition run_binding (n : nat) (t : btext Z) : wv :=
+  wok [w_brun (run_dyn n t); w_brun (run_lex n t); w_brun (run_last n t); w_key (first_decl t);
+       wbool (lex_ok Z.eqb t); wbool (last_ok Z.eqb t); wbool (last_ok_loop Z.eqb t)].
+
 Definition prov_of (l : list pynum) (k : nat) : bool := truthy (nth k l (last l (PB false))).
 
 Definition w_hev (e : hev) : wv := match e with HClick => WL [WI 0] | HRet v => WL [WI 1; wbool v] end.
@@ -524,6 +587,11 @@ Definition run (v : wv) : wv :=
           | _, _ => wbad
           end
       | _, _, _, _, _ => wbad
+      end
+  | WL [WI 4; n; st; lp] =>
+      match un_nat n, un_list un_item st, un_list un_item lp with
+      | Some n', Some st', Some lp' => run_binding n' {| t_setup := st'; t_loop := lp' |}
+      | _, _, _ => wbad
       end
   | WL [WI 1; cb; s] =>
       match un_bool cb, un_text s with
